@@ -17,10 +17,14 @@ type Effects struct {
 	S      *Specs
 	D      *Decls // only used for key naming
 	Mods   map[*ssa.Function]map[string]bool
+	PMods  map[*ssa.Function]map[int]map[string]bool // keys written on the object a parameter points to
 	bySig  map[string][]*ssa.Function // signature string -> address-taken in-repo functions
 	impls  map[string][]*ssa.Function // method name -> in-repo methods
 	allocs map[*ssa.Function]bool     // function (transitively) allocates
 	importClosure map[*types.Package]map[*types.Package]bool
+	extMods       map[*ssa.Function]map[string]bool
+	extPMods      map[*ssa.Function]map[int]map[string]bool
+	allocators    map[*ssa.Function]int
 }
 
 func typeName(t types.Type) string {
@@ -119,10 +123,11 @@ func storeKeys(d *Decls, addr ssa.Value) []string {
 }
 
 func NewEffects(P *Program, S *Specs) *Effects {
-	E := &Effects{P: P, S: S, D: NewDecls(), Mods: map[*ssa.Function]map[string]bool{},
+	E := &Effects{P: P, S: S, D: NewDecls(), Mods: map[*ssa.Function]map[string]bool{}, PMods: map[*ssa.Function]map[int]map[string]bool{},
 		bySig: map[string][]*ssa.Function{}, impls: map[string][]*ssa.Function{}, allocs: map[*ssa.Function]bool{}}
 	for _, f := range P.AllFuncs {
 		E.Mods[f] = map[string]bool{}
+		E.PMods[f] = map[int]map[string]bool{}
 		sig := f.Signature
 		if sig.Recv() != nil {
 			E.impls[f.Name()] = append(E.impls[f.Name()], f)
@@ -139,11 +144,16 @@ func NewEffects(P *Program, S *Specs) *Effects {
 					if al, ok := x.Addr.(*ssa.Alloc); ok && !al.Heap {
 						continue
 					}
-					if storeBaseIsLocalAlloc(x.Addr) {
+					cls, pi := E.classifyRoot(f, x.Addr)
+					if cls == rootLocal {
 						continue // initialisation of an object this function allocated
 					}
 					for _, k := range storeKeys(E.D, x.Addr) {
-						m[k] = true
+						if cls == rootParam && strings.HasPrefix(k, "F:") {
+							E.addP(f, pi, k)
+						} else {
+							m[k] = true
+						}
 					}
 				case *ssa.MapUpdate:
 					mt := x.Map.Type().Underlying().(*types.Map)
@@ -175,10 +185,33 @@ func NewEffects(P *Program, S *Specs) *Effects {
 					if !ok {
 						continue
 					}
-					for k := range E.callMods(ci, false) {
+					whole, byArg := E.callEffects(ci, false)
+					for k := range whole {
 						if !m[k] {
 							m[k] = true
 							changed = true
+						}
+					}
+					for ai, keys := range byArg {
+						args := ci.Common().Args
+						if ai >= len(args) {
+							continue
+						}
+						cls, pj := E.classifyRoot(f, args[ai])
+						for k := range keys {
+							switch cls {
+							case rootLocal:
+							case rootParam:
+								if !E.PMods[f][pj][k] {
+									E.addP(f, pj, k)
+									changed = true
+								}
+							default:
+								if !m[k] {
+									m[k] = true
+									changed = true
+								}
+							}
 						}
 					}
 				}
@@ -405,9 +438,34 @@ func (E *Effects) callMods(ci ssa.CallInstruction, useContracts bool) map[string
 			for k := range m {
 				out[k] = true
 			}
+			for ai, keys := range E.PMods[v] {
+				if ai < len(c.Args) {
+					if cls, _ := E.classifyRoot(ci.Parent(), c.Args[ai]); cls == rootLocal {
+						continue
+					}
+				}
+				for k := range keys {
+					out[k] = true
+				}
+			}
 			return out
 		}
-		// external (or generated) function: only callbacks can touch /repo state
+		// external (or generated) function: callbacks can touch /repo state, and a function that
+		// the generator inlines writes whatever its body writes
+		em, pm := E.inlinableEffects(v, 0)
+		for k := range em {
+			out[k] = true
+		}
+		for ai, keys := range pm {
+			if ai < len(c.Args) {
+				if cls, _ := E.classifyRoot(ci.Parent(), c.Args[ai]); cls == rootLocal {
+					continue
+				}
+			}
+			for k := range keys {
+				out[k] = true
+			}
+		}
 		E.callbackModsFrom(ci.Parent(), c.Args, out)
 		out[liveKey] = true
 		return out
@@ -658,4 +716,224 @@ func (E *Effects) modsOfFn(f *ssa.Function) map[string]bool {
 		}
 	}
 	return nil
+}
+
+// inlinableEffects scans the body of a dependency / generated function that may be inlined at its
+// call sites (see shouldInline) for the heap keys it writes, following static callees; writes to
+// the object a parameter points to are reported per parameter.
+func (E *Effects) inlinableEffects(f *ssa.Function, depth int) (map[string]bool, map[int]map[string]bool) {
+	if E.extMods == nil {
+		E.extMods = map[*ssa.Function]map[string]bool{}
+		E.extPMods = map[*ssa.Function]map[int]map[string]bool{}
+	}
+	if m, ok := E.extMods[f]; ok {
+		return m, E.extPMods[f]
+	}
+	m := map[string]bool{}
+	pm := map[int]map[string]bool{}
+	E.extMods[f] = m
+	E.extPMods[f] = pm
+	if depth > 4 {
+		return m, pm
+	}
+	pkg := f.Pkg
+	if pkg == nil && f.Object() != nil && f.Object().Pkg() != nil {
+		pkg = E.P.Prog.Package(f.Object().Pkg())
+	}
+	if pkg == nil {
+		return m, pm
+	}
+	if !autoInlinePkgs[pkg.Pkg.Path()] && !(inRepoPkg(pkg.Pkg)) {
+		return m, pm
+	}
+	if f.Blocks == nil {
+		pkg.Build()
+	}
+	addP := func(i int, k string) {
+		if pm[i] == nil {
+			pm[i] = map[string]bool{}
+		}
+		pm[i][k] = true
+	}
+	for _, b := range f.Blocks {
+		for _, ins := range b.Instrs {
+			switch x := ins.(type) {
+			case *ssa.Store:
+				cls, pi := E.classifyRoot(f, x.Addr)
+				if cls == rootLocal {
+					continue
+				}
+				for _, k := range storeKeys(E.D, x.Addr) {
+					if cls == rootParam && strings.HasPrefix(k, "F:") {
+						addP(pi, k)
+					} else {
+						m[k] = true
+					}
+				}
+			case *ssa.MapUpdate:
+				mt := x.Map.Type().Underlying().(*types.Map)
+				h, v, l := E.D.mapKeysT(mt.Key(), mt.Elem())
+				m[h], m[v], m[l] = true, true, true
+			case ssa.CallInstruction:
+				if cf, ok := x.Common().Value.(*ssa.Function); ok {
+					cm, cpm := E.inlinableEffects(cf, depth+1)
+					for k := range cm {
+						m[k] = true
+					}
+					for ai, keys := range cpm {
+						args := x.Common().Args
+						cls, pj := rootUnknown, 0
+						if ai < len(args) {
+							cls, pj = E.classifyRoot(f, args[ai])
+						}
+						for k := range keys {
+							switch cls {
+							case rootLocal:
+							case rootParam:
+								addP(pj, k)
+							default:
+								m[k] = true
+							}
+						}
+					}
+				}
+			}
+		}
+	}
+	return m, pm
+}
+
+const (
+	rootUnknown = iota
+	rootLocal
+	rootParam
+)
+
+func (E *Effects) addP(f *ssa.Function, i int, k string) {
+	if E.PMods[f] == nil {
+		E.PMods[f] = map[int]map[string]bool{}
+	}
+	if E.PMods[f][i] == nil {
+		E.PMods[f][i] = map[string]bool{}
+	}
+	E.PMods[f][i][k] = true
+}
+
+// classifyRoot finds the object an address (or pointer argument) designates: an object this function
+// allocated (directly or through a call to a function that returns a fresh allocation), the object
+// one of its parameters points to, or something else.
+func (E *Effects) classifyRoot(f *ssa.Function, v ssa.Value) (int, int) {
+	for n := 0; n < 32; n++ {
+		switch a := v.(type) {
+		case *ssa.FieldAddr:
+			v = a.X
+		case *ssa.IndexAddr:
+			if _, ok := a.X.Type().Underlying().(*types.Pointer); ok {
+				v = a.X
+			} else {
+				return rootUnknown, 0
+			}
+		case *ssa.Alloc:
+			return rootLocal, 0
+		case *ssa.Parameter:
+			for i, p := range f.Params {
+				if p == a {
+					return rootParam, i
+				}
+			}
+			return rootUnknown, 0
+		case *ssa.Call:
+			if cf, ok := a.Call.Value.(*ssa.Function); ok && E.isAllocator(cf) {
+				return rootLocal, 0
+			}
+			return rootUnknown, 0
+		case *ssa.ChangeType:
+			v = a.X
+		default:
+			return rootUnknown, 0
+		}
+	}
+	return rootUnknown, 0
+}
+
+// isAllocator: every return of the function yields an object the function itself allocated.
+func (E *Effects) isAllocator(f *ssa.Function) bool {
+	if E.allocators == nil {
+		E.allocators = map[*ssa.Function]int{}
+	}
+	if r, ok := E.allocators[f]; ok {
+		return r == 1
+	}
+	E.allocators[f] = 2
+	if f.Blocks == nil {
+		pkg := f.Pkg
+		if pkg == nil && f.Object() != nil && f.Object().Pkg() != nil {
+			pkg = E.P.Prog.Package(f.Object().Pkg())
+		}
+		if pkg != nil && (autoInlinePkgs[pkg.Pkg.Path()] || inRepoPkg(pkg.Pkg)) {
+			pkg.Build()
+		}
+	}
+	if f.Blocks == nil || f.Signature.Results().Len() == 0 {
+		return false
+	}
+	ok := true
+	seen := false
+	for _, b := range f.Blocks {
+		for _, ins := range b.Instrs {
+			if r, isRet := ins.(*ssa.Return); isRet {
+				seen = true
+				v := r.Results[0]
+				if mi, isMI := v.(*ssa.MakeInterface); isMI {
+					v = mi.X
+				}
+				switch x := v.(type) {
+				case *ssa.Alloc:
+				case *ssa.Call:
+					if cf, isF := x.Call.Value.(*ssa.Function); !isF || !E.isAllocator(cf) {
+						ok = false
+					}
+				default:
+					ok = false
+				}
+			}
+		}
+	}
+	if ok && seen {
+		E.allocators[f] = 1
+		return true
+	}
+	return false
+}
+
+// callEffects: the keys a call may write, split into those written on arbitrary objects and those
+// written on the object a particular argument points to (struct fields only).
+func (E *Effects) callEffects(ci ssa.CallInstruction, useContracts bool) (map[string]bool, map[int]map[string]bool) {
+	c := ci.Common()
+	name := calleeName(c)
+	if ct := E.S.Contracts[name]; ct != nil && ct.HasAssign {
+		return E.callMods(ci, useContracts), nil
+	}
+	if c.IsInvoke() {
+		return E.callMods(ci, useContracts), nil
+	}
+	switch v := c.Value.(type) {
+	case *ssa.Function:
+		if m, ok := E.Mods[v]; ok {
+			whole := map[string]bool{}
+			for k := range m {
+				whole[k] = true
+			}
+			return whole, E.PMods[v]
+		}
+		whole := map[string]bool{}
+		em, pm := E.inlinableEffects(v, 0)
+		for k := range em {
+			whole[k] = true
+		}
+		E.callbackModsFrom(ci.Parent(), c.Args, whole)
+		whole[liveKey] = true
+		return whole, pm
+	}
+	return E.callMods(ci, useContracts), nil
 }
